@@ -941,7 +941,9 @@ def shards(tier, seed):
         add("ma", [], "both", 3, budget=bud)
         add("ma", [], "one", 3, budget=bud)
     # (2b) one timed operation on one side, then a probe operation on the untouched side and on an independently built twin
-    for cls, feats in (("problem", FULL), ("contingent", ["tgoal"]), ("hierarchical", ["tgoal"])):
+    #      (with only ONE timed effect present before cloning, the bookkeeping of its time point exists and new fluents can enter it)
+    for cls, feats in (("problem", FULL), ("contingent", ["tgoal"]), ("hierarchical", ["tgoal"]), ("problem", ["tassign"]), ("problem", ["tinc"]),
+                       ("contingent", ["tassign"]), ("hierarchical", ["tinc"])):
         add(cls, feats, "one", 1, ops=TIMED, lite=quick, tag="probe", budget=bud)
         out[-1]["kwargs"]["probe"] = TIMED
     # (3) symbolic timings / values (delay (2k+1)/8 and assigned values are solver variables)
